@@ -44,6 +44,44 @@ func collectConsts(repo string) constList {
 				continue
 			}
 			ast.Inspect(f, func(x ast.Node) bool {
+				// `64 * 1024`, `1 << 16`: the folded value is the threshold, not its factors
+				if be, ok := x.(*ast.BinaryExpr); ok {
+					l, ok1 := be.X.(*ast.BasicLit)
+					r, ok2 := be.Y.(*ast.BasicLit)
+					if ok1 && ok2 && l.Kind == token.INT && r.Kind == token.INT {
+						a, e1 := strconv.ParseInt(l.Value, 0, 64)
+						b, e2 := strconv.ParseInt(r.Value, 0, 64)
+						if e1 == nil && e2 == nil && a >= 0 && b >= 0 {
+							switch be.Op {
+							case token.MUL:
+								if b == 0 || a <= (1<<40)/(b+1) {
+									ints[a*b]++
+								}
+							case token.SHL:
+								if b < 40 {
+									ints[a<<uint(b)]++
+								}
+							case token.ADD:
+								ints[a+b]++
+							case token.SUB:
+								ints[a-b]++
+							}
+						}
+					}
+				}
+				// a fixed-width integer type is a threshold too (a 64-bit word used as a stack of bits)
+				if id, ok := x.(*ast.Ident); ok {
+					switch id.Name {
+					case "uint64", "int64":
+						ints[64]++
+					case "uint32", "int32":
+						ints[32]++
+					case "uint16", "int16":
+						ints[16]++
+					case "uint8", "int8", "byte":
+						ints[8]++
+					}
+				}
 				if bl, ok := x.(*ast.BasicLit); ok {
 					switch bl.Kind {
 					case token.INT:
@@ -115,14 +153,14 @@ func genMagicCases(tier string, emit func(op string, fields ...string)) {
 	lexAndParse := func(src string) {
 		emit("SCAN", hexs(src))
 		emit("SPLIT", hexs(src))
-		if len(src) <= 20000 {
+		if len(src) <= 70000 {
 			emit("PARSE", hexs(src))
 			emit("PIECES", hexs(src))
 		}
 	}
 	prog := func(src string) {
 		lexAndParse(src)
-		if len(src) <= 20000 {
+		if len(src) <= 70000 {
 			emit("COMPILE", hexs(src), "-")
 			emit("WALK", hexs(src), "-")
 			emit("WALK", hexs(src), "110")
@@ -138,9 +176,16 @@ func genMagicCases(tier string, emit func(op string, fields ...string)) {
 		lexAndParse(rep("\n", n) + "T | where")
 		lexAndParse("T | where x == " + rep("7", n))
 		lexAndParse("T | where `" + rep("q", n) + "` == 1")
+		// a literal with an escape whose unescaped value reaches n bytes with a multi-byte character across the boundary
+		for pre := 0; pre <= 4 && pre < n; pre++ {
+			for _, ch := range []string{"é", "€", "😀", "\xff"} {
+				lexAndParse("T | where m == \"\\t" + rep("a", n-pre) + ch + "\" | count")
+				lexAndParse("T | where m == '" + rep("a", n-pre) + "\\n" + ch + "z'")
+			}
+		}
 		lexAndParse(rep("T;", n))
 		lexAndParse(rep("T | count;\n", n) + "U | bogus")
-		if n <= 5000 {
+		if n <= 12000 {
 			// structural sizes
 			prog("T" + rep(" | count", n))
 			prog("T | where " + rep("(", n) + "a" + rep(")", n))
@@ -173,6 +218,58 @@ func genMagicCases(tier string, emit func(op string, fields ...string)) {
 				if n >= 8 {
 					prog("T" + rep(" | count", (n-7)/2) + " | sort by a, b nulls")
 				}
+			}
+		}
+		if n <= 12000 {
+			// groups of MIXED kinds nested n deep inside an outer group, followed by more of the outer construct
+			for v := 0; v < 3; v++ {
+				var open, close strings.Builder
+				for i := 0; i < n; i++ {
+					switch (i*7 + v*3) % 5 {
+					case 0:
+						open.WriteString("a[")
+						close.WriteString("]")
+					case 1:
+						open.WriteString("f(")
+						close.WriteString(")")
+					default:
+						open.WriteString("(")
+						close.WriteString(")")
+					}
+				}
+				// the closers in reverse order of the openers
+				cs := close.String()
+				rb := []byte(cs)
+				for i, j := 0, len(rb)-1; i < j; i, j = i+1, j-1 {
+					rb[i], rb[j] = rb[j], rb[i]
+				}
+				nest := open.String() + "x" + string(rb)
+				prog("T | where f((a[" + nest + "]), b) | count")
+				prog("T | join kind=inner (U | where (a[" + nest + "]) == 1 | count) on k | take 5")
+				prog("T | where g(" + nest + ", c[" + nest + "]) and d")
+			}
+		}
+		if n >= 64 {
+			// one long LINE of about n and about 2n bytes in which every `;` but the last sits inside a string, a
+			// quoted name or a comment (a splitter that works on windows or byte offsets meets them at any boundary)
+			for _, total := range []int{n, 2 * n} {
+				for _, unit := range []string{"'a;b', ", "`c;d`, ", "\"e;f;g\", "} {
+					k := total / len(unit)
+					lexAndParse("T | where s in (" + rep(unit, k) + "'z') ; U | count")
+					lexAndParse("T | where s in (" + rep(unit, k) + "'z'); U | where t == 'p;q' // c ; d\n| count; V")
+				}
+				lexAndParse("T // " + rep("c;", total/2) + "\n| count; U")
+			}
+			// a source of n bytes and more that ends inside a number's exponent, and the same source continued
+			pad := "T\n| where col > 0 and\n"
+			body := rep(" col > 1 and\n", n/13+1)
+			for _, tail := range []string{"1e", "1E+", "2.5e-", "0x", "1."} {
+				p := pad + body + " d < " + tail
+				emit("SCAN", hexs(p+"3"))
+				emit("SCAN", hexs(p+"3 | take 5"))
+				emit("SPLIT", hexs(p+"3; U"))
+				emit("PARSE", hexs(p+"3"))
+				emit("COMPILESEQ", hexs(p), hexs(p+"3"), "-")
 			}
 		}
 		if n <= 400 {
